@@ -47,7 +47,7 @@ ALLOC_CALLS = [
 
 
 class Site:
-    __slots__ = ("body", "fn", "kind", "term", "nterm", "bb", "idx", "ln", "status", "how", "detail")
+    __slots__ = ("body", "fn", "kind", "term", "nterm", "bb", "idx", "ln", "status", "how", "detail", "_why")
 
     def __init__(self, body, fn, kind, term, bb, idx, ln, nterm=None):
         self.body = body
@@ -352,6 +352,16 @@ def discharge(F, s):
                 if nm.endswith("sync::Mutex::<T>::lock") or nm.endswith("sync::Mutex::<T>::into_inner") or "RwLock" in nm:
                     return _auto(s, "lock poisoning presupposes an earlier panic")
             return False
+        if kind == "alloc:repeat" and (t["f"].get("fn") or "").endswith("Iterator::cycle"):
+            # an endless iterator is harmless when the only thing done with it is take(n) (then bounded adaptors)
+            d = t["dest"]
+            if not d["p"]:
+                us = [u for u in b.uses(d["l"]) if u["kind"] != "drop"]
+                if len(us) == 1 and us[0]["kind"] == "arg" and us[0].get("argi", 0) == 0:
+                    cs = b.callsite_at(us[0]["bb"])
+                    if (cs.fn or "").endswith("Iterator::take"):
+                        return _auto(s, "cycle() is consumed by take(n) only")
+            return False
         if kind.startswith("alloc:"):
             argi = s.detail
             if argi is None or argi < 0 or argi >= len(t["args"]):
@@ -372,6 +382,26 @@ def discharge(F, s):
         s.how = "matcher error: %r" % e
         return False
     return False
+
+
+def coarse(nterm):
+    """outer shape of a term: parenthesised groups from nesting depth 2 on become `(_)`, variable numbers are dropped."""
+    out, depth = [], 0
+    for ch in nterm:
+        if ch == "(":
+            depth += 1
+            if depth == 2:
+                out.append("(_)")
+            if depth >= 2:
+                continue
+        elif ch == ")":
+            depth -= 1
+            if depth >= 1:
+                continue
+        if depth >= 2:
+            continue
+        out.append(ch)
+    return re.sub(r"\$\d+", "$", "".join(out))
 
 
 def _auto(s, how):
@@ -398,12 +428,13 @@ def closure_creation_blocks(F, closure_body):
     out = []
     par = closure_body.path.rsplit("::{closure", 1)[0]
     pb = F.bodies.get(par)
-    if pb is None:
-        return out
-    for bi, si, st in pb.stmts():
-        rv = st.get("rv")
-        if rv and rv["k"] == "agg" and rv["kind"].get("a") == "closure" and rv["kind"]["def"] == closure_body.path:
-            out.append((pb, bi))
+    # the syntactic parent, or (when that was a helper inlined into its callers) every body that creates the closure
+    cands = [pb] if pb is not None else [b for b in F.bodies.values() if b.file == closure_body.file]
+    for pb in cands:
+        for bi, si, st in pb.stmts():
+            rv = st.get("rv")
+            if rv and rv["k"] == "agg" and rv["kind"].get("a") == "closure" and rv["kind"]["def"] == closure_body.path:
+                out.append((pb, bi))
     return out
 
 
@@ -515,9 +546,24 @@ def inventory(ctx, F, scope, table, rule="R-INV", kinds=None):
     for fkey, rows in table.items():
         for r in rows:
             tab[(r.get("file", fkey), r["kind"], r["nterm"] if "nterm" in r else r.get("term"))].append(dict(r, _left=r["n"]))
-    for key, ss in sorted(remaining.items()):
-        rows = tab.get(key, [])
-        for s in ss:
+    # two passes: exact key first; then, for what is left, a reviewed row of the SAME function with the same kind and the
+    # same outer shape (inner operands abstracted).  The second pass keeps a site matched to its reviewed argument when
+    # only the spelling of an operand changed (`x.unwrap_or(id)` -> a `match` bound to a local); the number of sites per
+    # function and shape stays exact.
+    order = [(key, s_, False) for key, ss in sorted(remaining.items()) for s_ in ss]
+    second = []
+    all_rows = [r for rows_ in tab.values() for r in rows_]
+    qi = 0
+    while qi < len(order):
+        key, s, fallback = order[qi]
+        qi += 1
+        if not fallback:
+            rows = tab.get(key, [])
+        else:
+            root = s.fn.split("::{closure")[0]
+            rows = [r for r in all_rows if r["kind"] == s.kind and any(x.split("::{closure")[0] == root for x in r.get("in", []))
+                    and coarse(r["nterm"] if "nterm" in r else r.get("term", "")) == coarse(s.nterm)]
+        if True:
             done = False
             why = []
             for r in rows:
@@ -542,6 +588,11 @@ def inventory(ctx, F, scope, table, rule="R-INV", kinds=None):
                 break
             if done:
                 continue
+            if not fallback:
+                order.append((key, s, True))
+                s._why = why
+                continue
+            why = getattr(s, "_why", None) or why
             s.status = "open"
             stats["open"] += 1
             if why:
